@@ -382,7 +382,8 @@ MT_SCEN_ARGS = {
     "xfree":    (lambda r: ["--threads", r.choice([2, 3, 3, 4]), "--ops", r.choice([40, 80, 150, 300])],              lambda r: ["--threads", r.choice([4, 8, 12]), "--ops", r.choice([20000, 60000])]),
     "prodcons": (lambda r: ["--threads", r.choice([2, 3, 4]), "--rounds", r.choice([20, 40, 80]), "--live", r.choice([8, 32, 64])],
                  lambda r: ["--threads", r.choice([3, 5, 8]), "--rounds", r.choice([400, 1200]), "--live", r.choice([64, 1024, 4096])]),
-    "heapdel":  (lambda r: ["--threads", r.choice([2, 3, 4]), "--rounds", r.choice([8, 16, 40])],                      lambda r: ["--threads", r.choice([3, 5, 8]), "--rounds", r.choice([400, 1500])]),
+    "heapdel":  (lambda r: ["--threads", r.choice([2, 3, 4]), "--rounds", r.choice([8, 16, 40])],
+                 lambda r: ["--threads", r.choice([3, 5, 8]), "--rounds", r.choice([200, 600]), "--live", r.choice([32, 600, 3000, 8000])]),
     "exit":     (lambda r: ["--threads", r.choice([2, 3, 4, 4]), "--ops", r.choice([40, 100, 200]), "--rounds", r.choice([2, 3, 5]), "--exit-mode", r.choice([0, 1, 2]), "--subprocs", r.choice([0, 0, 2])],
                  lambda r: ["--threads", r.choice([4, 6, 8]), "--ops", r.choice([3000, 8000]), "--rounds", r.choice([4, 8]), "--exit-mode", r.choice([0, 2]), "--subprocs", r.choice([0, 2])]),
     "arena":    (lambda r: ["--threads", r.choice([2, 3, 4]), "--ops", r.choice([30, 60, 120]), "--arena-blocks", r.choice([64, 96, 100, 128, 128, 130, 160, 192])],
